@@ -921,7 +921,7 @@ func genScenario(r *rand.Rand, t *Tree, id int) *Scenario {
 		if chance(r, 0.3) {
 			for _, pre := range []string{"", "N_", "M_", "NN_", "N__", "N_M_", "N_N_"} {
 				if pre == "" || chance(r, 0.5) {
-					sc.Env = append(sc.Env, EnvKV{K: toS(pre + k), V: toS(pick(r, []string{"e1", "5", "", "a,b", "k:1;k2:2", "7,8", "x::y"}))})
+					sc.Env = append(sc.Env, EnvKV{K: toS(pre + k), V: toS(pick(r, []string{"e1", "5", "", "a,b", "k:1;k2:2", "7,8", "x::y", "1,,2", "a,,b,", ";k:1", "5,"}))})
 				}
 			}
 		}
